@@ -123,9 +123,9 @@ def bounds_for(ctx):
         B.append(("2 activities x %s x 4 profiles x cores 1,2" % e,
                   (lambda ev: lambda: scenarios(2, [(ev, p) for p in P], (1, 2)))(e)))
     for combo in RED:
-        B.append(("3 activities x (%s, %s) x cores 1,2" % combo, (lambda cb: lambda: scenarios(3, [cb], (1, 2)))(combo)))
-    for combo in (("none", "none"), ("susp.25-res.75", "none"), ("none", "speed-periodic")):
-        B.append(("4 activities x (%s, %s) x 2 cores" % combo, (lambda cb: lambda: scenarios(4, [cb], (2,)))(combo)))
+        B.append(("3 activities x (%s, %s) x 1 core" % combo, (lambda cb: lambda: scenarios(3, [cb], (1,)))(combo)))
+    B.append(("4 activities x (none, none) x 2 cores", lambda: scenarios(4, [("none", "none")], (2,))))
+    B.append(("4 activities x (none, speed-periodic) x 1 core", lambda: scenarios(4, [("none", "speed-periodic")], (1,))))
     return B
 
 
